@@ -49,10 +49,10 @@ var (
 	treasuryAd = common.MustNewAddressFromString("hx1000000000000000000000000000000000000000")
 )
 
-func bi(v int64) *big.Int            { return big.NewInt(v) }
+func bi(v int64) *big.Int              { return big.NewInt(v) }
 func mul(a *big.Int, k int64) *big.Int { return new(big.Int).Mul(a, bi(k)) }
-func add(a, b *big.Int) *big.Int     { return new(big.Int).Add(a, b) }
-func sub(a, b *big.Int) *big.Int     { return new(big.Int).Sub(a, b) }
+func add(a, b *big.Int) *big.Int       { return new(big.Int).Add(a, b) }
+func sub(a, b *big.Int) *big.Int       { return new(big.Int).Sub(a, b) }
 
 // ---------------------------------------------------------------- snapshots
 
@@ -107,7 +107,9 @@ func sumUbonds(l []ubond) *big.Int {
 	}
 	return t
 }
-func (a *asnap) using() *big.Int { return add(add(sumVotes(a.Delegs), sumVotes(a.Bonds)), sumUbonds(a.Unbonds)) }
+func (a *asnap) using() *big.Int {
+	return add(add(sumVotes(a.Delegs), sumVotes(a.Bonds)), sumUbonds(a.Unbonds))
+}
 func (a *asnap) maxStake() *big.Int {
 	return add(add(a.Bal, a.Stake), sumSlots(a.Unstakes))
 }
@@ -199,6 +201,8 @@ type world struct {
 	opKinds                                 map[string]int
 	noObs                                   bool
 	lastObs                                 *snap // the observation printed last (reference of the next delta)
+	issuing                                 bool  // blocks run through VerifC34GoByBlockIssuing (base transaction issues ICX)
+	issued                                  *big.Int
 }
 
 func addrOf(i int) module.Address {
@@ -468,7 +472,13 @@ func (w *world) runBlock(ops []*opRec, withObs bool) bool {
 	}
 	var receipts []icsim.Receipt
 	var err error
-	if p := hxlib.Catch(func() { receipts, err = sim.GoByBlock(nil, blk) }); p != "" {
+	if p := hxlib.Catch(func() {
+		if w.issuing {
+			receipts, err = icsim.VerifC34GoByBlockIssuing(sim, nil, blk)
+		} else {
+			receipts, err = sim.GoByBlock(nil, blk)
+		}
+	}); p != "" {
 		w.fatal = "panic while executing block " + fmt.Sprint(bh) + ": " + p
 		return false
 	}
@@ -483,6 +493,25 @@ func (w *world) runBlock(ops []*opRec, withObs bool) bool {
 	touched := map[int]bool{}
 	k := 1
 	allRejected := true
+	if w.issuing {
+		// the base transaction ran first: ICX issued to the treasury (ICXIssued event, 3rd data field)
+		issue := new(big.Int)
+		for _, ev := range receipts[0].Events() {
+			if len(ev.Indexed) > 0 && string(ev.Indexed[0]) == "ICXIssued(int,int,int,int)" && len(ev.Data) == 4 {
+				issue = intconv.BigIntSetBytes(new(big.Int), ev.Data[2])
+			}
+		}
+		w.emitOp("(WIssue "+zs(issue)+")", true, nil)
+		if issue.Sign() != 0 {
+			supCur.Add(supCur, issue)
+			touched[w.tre] = true
+			allRejected = false
+			if w.issued == nil {
+				w.issued = new(big.Int)
+			}
+			w.issued.Add(w.issued, issue)
+		}
+	}
 	for _, o := range ops {
 		if o.tx != nil {
 			rc := receipts[k]
@@ -948,6 +977,13 @@ func (w *world) genVotes(a int, forBond bool) []vote {
 		if len(pool) == 0 || w.r.Intn(12) == 0 {
 			pool = append(pool, w.r.Intn(len(w.addrs)))
 		}
+		// prefer an unregistered P-Rep that still lists this account as bonder (inactive target)
+		for _, q := range pool {
+			if w.prev.A[q].PStat == 2 && w.r.Intn(2) == 0 {
+				pool = []int{q}
+				break
+			}
+		}
 	} else {
 		pool = w.preps(true)
 		if w.r.Intn(4) == 0 {
@@ -1196,6 +1232,7 @@ func runRandom(in histIn, noObs bool) *world {
 		return &world{fatal: "NewSimulator: " + err.Error()}
 	}
 	w.noObs = noObs
+	w.issuing = in.I%2 == 1
 	if !w.setup() {
 		return w
 	}
@@ -1272,7 +1309,10 @@ func gen(c *hxlib.Ctx) {
 	var all []pending
 	tot := map[string]int{}
 	mk := func(in histIn) {
-		w := runHist(in, c.OracleOnly)
+		var w *world
+		if p := hxlib.Catch(func() { w = runHist(in, c.OracleOnly) }); p != "" {
+			w = &world{fatal: "panic while running the history: " + p, opKinds: map[string]int{}}
+		}
 		msg := verdict(w)
 		cs := hxlib.Case{Kind: in.T + "-history", Input: in, OracleErr: msg,
 			Nontrivial: w.paidSlots > 0 && w.delegOK > 0 && w.bondOK > 0 && w.nRej > 0 && w.stakeDec > 0}
@@ -1294,6 +1334,12 @@ func gen(c *hxlib.Ctx) {
 		tot["claims paying ICX"] += w.claims
 		if len(w.known) > 0 {
 			tot["histories hitting the known unstake-timer finding"]++
+		}
+		if w.issuing {
+			tot["histories with an issuing base transaction"]++
+			if w.issued != nil && w.issued.Sign() > 0 {
+				tot["histories in which ICX was issued"]++
+			}
 		}
 		for k, v := range w.opKinds {
 			tot["op:"+k] += v
@@ -1342,7 +1388,11 @@ func replay(raw json.RawMessage) string {
 	if err := json.Unmarshal(raw, &in); err != nil {
 		return "bad replay input: " + err.Error()
 	}
-	return verdict(runHist(in, true))
+	var w *world
+	if p := hxlib.Catch(func() { w = runHist(in, true) }); p != "" {
+		return "panic while running the history: " + p
+	}
+	return verdict(w)
 }
 
 func main() {
